@@ -62,11 +62,11 @@ impl RawParameters {
             // refer to the scope of the caller: resolve them here, not when some
             // operator deep inside the macro body eventually looks them up
             let args = definition.split_into_parameters();
-            for (key, value) in &args {
+            for key in args.keys() {
                 match parsed_parameters::chase(&self.globals, &args, key) {
                     Ok(Some(resolved)) => globals.insert(key.clone(), resolved),
-                    // Not resolvable here: hand it down as given, so that any use is an error
-                    _ => globals.insert(key.clone(), value.clone()),
+                    // Not resolvable: treat as not given, so that any later use is an error
+                    _ => globals.remove(key),
                 };
             }
             globals.remove("inv");
